@@ -164,7 +164,8 @@ def run_item(item):
     df = df.iloc[prng.permutation(len(df))].reset_index(drop=True)
     TARGETS = None
     if item.get("historical"):
-        TARGETS = env.feasible_targets(functions, list(df.columns), data=df, params=params)
+        df = popgen.historical_supplement(df, d)
+        TARGETS = env.feasible_targets(functions, list(df.columns), data=df, params=params, candidates=env.HIST_CANDIDATES)
     S0, nodes, roots, dag, fn = env.trace(df, params, functions, TARGETS)
     res = dict(date=item["date"], pop=popgen.digest(df), runs=0, violations=[], reforms=[],
                kinds={}, reform_failed=[], no_effect=0, nodes_changed_total=0)
